@@ -193,11 +193,21 @@ func (e *Env) Teardown() {
 		return
 	}
 	e.closed = true
-	if e.db != nil {
-		e.db.Close()
-	}
-	for _, h := range e.abandoned {
-		h.Close()
+	// a handle whose lock was leaked by the code under test must not wedge the harness
+	done := make(chan struct{})
+	go func() {
+		defer close(done)
+		defer func() { recover() }()
+		if e.db != nil {
+			e.db.Close()
+		}
+		for _, h := range e.abandoned {
+			h.Close()
+		}
+	}()
+	select {
+	case <-done:
+	case <-time.After(5 * time.Second):
 	}
 	os.RemoveAll(e.root)
 	sod.LowercaseNames = false
